@@ -29,7 +29,7 @@ LEVEL = 'exploration'
 RULE = ('(a) 11 failure families x failing period s in 1..3 x cap in {0,1,2,10,11,50,400} x tolerance {1e-4,1e-8} x reduction; '
         'oracle: ValueError/ConvergenceError, traced sweeps <= cap+1 (public step trace), wall-clock watchdog, all non-exogenous '
         'series of equal length and equal to the successful solve of the shorter horizon; (b) all 2-variable affine maps with entries '
-        'in {0,+-.2,+-.4,+-.8}, row sums <= .8, corner constants, two tolerances, plus n=12 structured cases and non-linear contractions: '
+        'in {0,+-.2,+-.4,+-.8} (thorough: also all 3-variable maps with entries in {0,+-.4}), row sums <= .8, corner constants, two tolerances, plus n=12 structured cases and non-linear contractions: '
         'must return within the default cap; (c) all names of keyword.kwlist + dir(builtins) + dir(math) + k in 3 positions x reduction x '
         'entry point, and 9 kinds of ill-formed declarations: must raise with no series produced; non-trivial = cases that reached the '
         'behaviour under test (failed in the intended period / converged / were refused)')
@@ -150,6 +150,12 @@ def check_failure(label, block, expect, s_period, red, tol, cap):
 
 ENTRIES = [0., .2, -.2, .4, -.4, .8, -.8]
 CORNERS = [0., 1., -3.5, 1e3]
+
+
+def affine_rows(n):
+    """rows of the contraction matrices: n=2 full entry alphabet, n=3 entries in {0, +-.4} (thorough)"""
+    entries = ENTRIES if n == 2 else [0., .4, -.4]
+    return [r for r in itertools.product(entries, repeat=n) if sum(abs(x) for x in r) <= .8 + 1e-12]
 
 
 def affine_text(A, b, tol):
@@ -320,9 +326,10 @@ def units(tier):
         for i in range(len(families(s_period))):
             out.append({'part': 'a', 's': s_period, 'family': i})
     n = BOUNDS[tier]['n_affine']
-    rows = [r for r in itertools.product(ENTRIES, repeat=n) if sum(abs(x) for x in r) <= .8 + 1e-12]
-    for i0 in range(len(rows)):
-        out.append({'part': 'b', 'n': n, 'row0': i0})
+    for nn in range(2, n + 1):
+        rows = affine_rows(nn)
+        for i0 in range(len(rows)):
+            out.append({'part': 'b', 'n': nn, 'row0': i0})
     out.append({'part': 'b-structured'})
     names = reserved_names()
     for i in range(0, len(names), 16):
@@ -353,12 +360,13 @@ def run_unit(unit, tier):
         res['samples'] = [{'family': label, 'fails in period': unit['s'], 'block': blk.text()}]
     elif part == 'b':
         n = unit['n']
-        rows = [r for r in itertools.product(ENTRIES, repeat=n) if sum(abs(x) for x in r) <= .8 + 1e-12]
+        rows = affine_rows(n)
         first = rows[unit['row0']]
         text = None
+        corners = CORNERS if n == 2 else [1., 1e3]
         for rest in itertools.product(rows, repeat=n - 1):
             A = [first] + list(rest)
-            for b in itertools.product(CORNERS, repeat=n):
+            for b in itertools.product(corners, repeat=n):
                 for tol in ('1e-8', '1e-6'):
                     text = affine_text(A, b, tol)
                     case = {'part': 'b', 'A': [list(r) for r in A], 'b': list(b), 'tol': tol}
